@@ -81,10 +81,11 @@ def extract_label(label):
     @param label cell coordinates (e.g. 'A1', '$B6', '$N$98').
     @returns Returns an list of objects.
     """
-    match = LABEL_EXTRACT_REGEXP.match(label)
-    if (not isinstance(label, string_types)) or (match is None):
+    if not isinstance(label, string_types):
         return []
-    label = label.upper()
+    match = LABEL_EXTRACT_REGEXP.match(label.upper())  # the parts spell their indices in upper case
+    if match is None:
+        return []
     column_abs, column, row_abs, row = match.groups()
 
     return [
